@@ -14,10 +14,14 @@ def consts(path):
                 pass
     return out
 NA = json.load(open(os.path.join(here, 'tools', 'not_applicable.json')))
+VERIFIED = set(open(os.path.join(here, 'tools', 'verified.txt')).read().split())
 checks, na, engines = [], [], {}
 for p in props:
     pid = p['id']
     m = sorted(glob.glob(os.path.join(here, 'props', pid + '_*.py')))
+    if m and pid not in VERIFIED and pid not in NA:
+        na.append({'property_id': pid, 'reason': 'a check is implemented (props/%s) but has not yet been run and confirmed silent on the current tree by the coordinator; nothing is claimed until then' % os.path.basename(m[0])})
+        continue
     if not m or pid in NA:
         na.append({'property_id': pid, 'reason': NA.get(pid, 'no check built yet for this property in this tree (design: DESIGN.md section 4, %s); nothing is claimed' % pid)})
         continue
